@@ -19,7 +19,10 @@ type omap struct {
 	keyType types.Type
 	ents    []*mentry
 	n       int
+	shadow  value // pseudo-cell for the race monitor: lookups read it, updates write it
 }
+
+func (m *omap) cell() *value { return &m.shadow }
 
 func newOmap(kt types.Type) *omap { return &omap{keyType: kt} }
 
